@@ -693,7 +693,15 @@ class _ReturnAndYieldChecks(SyntaxRule):
         return leaf.parent
 
     def is_issue(self, leaf):
-        if self._normalizer.context.node.type != 'funcdef':
+        context_node = self._normalizer.context.node
+        if context_node.type != 'funcdef':
+            if leaf.value == 'yield':
+                # Lambdas don't have an own context, but they are functions.
+                node = leaf.parent
+                while node is not None and node is not context_node:
+                    if node.type == 'lambdef':
+                        return False
+                    node = node.parent
             self.add_issue(self.get_node(leaf), message="'%s' outside function" % leaf.value)
         elif self._normalizer.context.is_async_funcdef() \
                 and any(self._normalizer.context.node.iter_yield_exprs()):
